@@ -319,6 +319,8 @@ class LocalShare:
             return None
         if not os.path.isdir(self.__path):
             return 0
+        if not os.path.exists(os.path.join(self.__path, "repo.json")):
+            return 0 # nothing was installed yet
 
         # Create a temporary attic directory. All garbage collected packages
         # are moved there to delete them without holding any locks.
